@@ -106,6 +106,9 @@ theorem runs_decodePointAttributes (ch : Choices) (opts : EncOpts) (n v : Nat) (
             exact ⟨attFacts ch opts n j p.1 p.2 hn ha hj2, ha.attType, ha.dataType, g3, g2,
               ha.numComponents, ha.uniqueId⟩)
         rw [hs, hlen] at this
+        unfold decodeSequentialAttributesV
+        refine Runs.bind0 (Runs.version v) ?_
+        rw [if_neg (by omega)]
         refine Runs.of_eq this rfl rfl ?_
         rw [List.map_zip_eq_zipWith]
         rfl
